@@ -34,4 +34,9 @@ def hasSub (pat : List UInt8) : List UInt8 → Bool
   | [] => pat.isEmpty
   | b :: bs => isPrefix pat (b :: bs) || hasSub pat bs
 
+/-- the client's mutexes (and the pseudo-lock "join the network thread") -/
+inductive LockId where
+  | inCallback | callback | msgtime | outMessage | inMessage | reconnectDelay | midGenerate | threadJoin
+  deriving DecidableEq, Repr
+
 end Paho
